@@ -878,9 +878,46 @@ func ruleSQL(c *Ctx) {
 			bf, okb2 := retOf("types.Bool", "not(p0:bool.V)")
 			c.R.Check(okb1 && okb2 && bt == tT && bf == tF && len(arms["types.Bool"]) == 2, "ext/sql.fmtVal", "SQL-3 bool -> 1/0", pos, "True/False constants", "booleans are not emitted as the True/False constants")
 			c.R.Check(okTF, "ext/sql.True/False", "SQL-3 True=\"1\" False=\"0\"", token.NoPos, "exact SQL form", "boolean constants changed")
+			if os.Getenv("YAE_DEBUG") != "" {
+				for _, a := range arms["types.Num"] {
+					fmt.Println("SQL3 num arm:", a.extras, "=>", a.ret, a.end)
+				}
+			}
 			ni, okn1 := retOf("types.Num", "m:val.NumVal.IsInt(p0:num)")
 			nf, okn2 := retOf("types.Num", "not(m:val.NumVal.IsInt(p0:num))")
-			c.R.Check(okn1 && okn2 && ni == "util.FmtInt(m:val.NumVal.Int(p0:num))" && nf == "util.FmtFloat(p0:num.V)" && len(arms["types.Num"]) == 2, "ext/sql.fmtVal", "SQL-3 num -> exact decimal text", pos, "FmtInt under IsInt (INTGUARD-1), FmtFloat otherwise", "numbers are not formatted by FmtInt under IsInt / FmtFloat otherwise: "+ni+" / "+nf)
+			okNumArm := okn1 && okn2 && ni == "util.FmtInt(m:val.NumVal.Int(p0:num))" && nf == "util.FmtFloat(p0:num.V)" && len(arms["types.Num"]) == 2
+			if !okNumArm && len(arms["types.Num"]) == 2 {
+				// the same case split with IsInt / Int written out on the float itself (a shared formatter taking the float):
+				// int64(X) only where X is integral and |X| < 2^63, FmtFloat(X) on the complementary path
+				const X = "p0:num.V"
+				var intArm, floatArm *armT
+				for i := range arms["types.Num"] {
+					a := &arms["types.Num"][i]
+					switch a.ret {
+					case "util.FmtInt(conv:int64(" + X + "))":
+						intArm = a
+					case "util.FmtFloat(" + X + ")":
+						floatArm = a
+					}
+				}
+				if intArm != nil && floatArm != nil && intArm.end == "return" && floatArm.end == "return" {
+					integral, bounded := false, false
+					for _, e := range intArm.extras {
+						if e == "eq(math.Trunc("+X+"),"+X+")" || e == "eq("+X+",math.Trunc("+X+"))" {
+							integral = true
+						}
+						if strings.HasPrefix(e, "lt(math.Abs("+X+"),") {
+							b := strings.TrimSuffix(strings.TrimPrefix(e, "lt(math.Abs("+X+"),"), ")")
+							if b == "bin<<(const:1,const:63)" || b == "const:9223372036854775808" || b == "const:9.223372036854775808e+18" {
+								bounded = true
+							}
+						}
+					}
+					okNumArm = integral && bounded && len(intArm.extras) == 2 && len(floatArm.extras) == 1
+					ni, nf = intArm.ret, floatArm.ret
+				}
+			}
+			c.R.Check(okNumArm, "ext/sql.fmtVal", "SQL-3 num -> exact decimal text", pos, "FmtInt under IsInt (INTGUARD-1), FmtFloat otherwise", "numbers are not formatted by FmtInt under IsInt / FmtFloat otherwise: "+ni+" / "+nf)
 			tr, okt := retOf("types.Time", "")
 			c.R.Check(okt && tr == "fmt.Sprintf(const:\"from_unixtime(%d)\",m:time.Time.Unix(p0:time.V))" && len(arms["types.Time"]) == 1, "ext/sql.fmtVal", "SQL-3 time -> from_unixtime(seconds)", pos, "instant as Unix seconds", "times are not emitted as from_unixtime(<Unix seconds>): "+tr)
 			okDef := len(arms["other"]) > 0
